@@ -36,11 +36,13 @@ def _sensitivity(chk, pid):
     gaps = by.get(("fire", "FAIL"), [])
     noisy = by.get(("silent", "FAIL"), [])
     stale = [i for (e, st), ids in by.items() if st in ("stale", "bad-variant") for i in ids]
+    unsupported = by.get(("error", "ok"), [])  # preserving edits outside the readable code shapes: analysis error, no violation (DESIGN §12)
+    noisy = noisy + by.get(("error", "FAIL"), [])
     chk.extra_cov["sensitivity"] = {
         "what": "single-edit variants of the current tree re-analysed with the quick rules: 'fire' edits break the property and must be "
                 "reported, 'silent' edits preserve behaviour and must not be",
         "variants": len(vs), "breaking_detected": fire_ok, "breaking_missed": gaps, "preserving_silent": silent_ok,
-        "preserving_reported": noisy, "stale_on_this_tree": stale,
+        "preserving_reported": noisy, "preserving_unreadable_analysis_error": unsupported, "stale_on_this_tree": stale,
         "samples": [{"id": v["id"], "file": v["file"], "expect": v["expect"], "rule": v.get("rule"), "status": r["status"],
                      "edit": (v["old"][:80] + " => " + v["new"][:80])} for v, r in list(zip(vs, res))[:12]],
     }
